@@ -444,6 +444,10 @@ func (p *sshFxInitPacket) id() uint32 { return 0 }
 type sshFxpStatResponse struct {
 	ID   uint32
 	info os.FileInfo
+
+	// attrs, if set, is the encoding of info made when the response was built:
+	// a handler's FileInfo may report another state by the time the reply is marshalled.
+	attrs []byte
 }
 
 func (p *sshFxpStatResponse) marshalPacket() ([]byte, []byte, error) {
@@ -453,8 +457,10 @@ func (p *sshFxpStatResponse) marshalPacket() ([]byte, []byte, error) {
 	b = append(b, sshFxpAttrs)
 	b = marshalUint32(b, p.ID)
 
-	var payload []byte
-	payload = marshalFileInfo(payload, p.info)
+	payload := p.attrs
+	if payload == nil {
+		payload = marshalFileInfo(payload, p.info)
+	}
 
 	return b, payload, nil
 }
